@@ -26,7 +26,8 @@ Record tables := {
   t_lang_gcc : lang -> option bytes;
   t_lang_clang : lang -> option bytes;
   t_arch_flag : bytes;
-  t_expand_limit : N            (* MAX_INCLUDE_FILE_EXPANSIONS *)
+  t_expand_limit : N;           (* MAX_INCLUDE_FILE_EXPANSIONS *)
+  t_rsp_literal : list N        (* a response file holding one of these characters is not expanded *)
 }.
 
 (* ------------------------------------------------------------------ bytes *)
@@ -211,7 +212,8 @@ Fixpoint split_ws_go (cur : bytes) (s : bytes) : list bytes :=
   end.
 Definition split_ws (s : bytes) : list bytes := split_ws_go [] s.
 
-Definition has_quote (s : bytes) : bool := existsb (fun c => N.eqb c 34 || N.eqb c 39) s.
+(* the characters that make ExpandIncludeFile give up on a file (quotes; the list comes from the translator) *)
+Definition has_quote (lits : list N) (s : bytes) : bool := existsb (fun c => existsb (N.eqb c) lits) s.
 
 Inductive popres :=
 | PopEnd
@@ -219,7 +221,7 @@ Inductive popres :=
 
 (* ExpandIncludeFile::next; the stack is kept top-first, [left] = expansions_left.  An `@name` that cannot be read,
    whose content holds a quote, or that comes after the expansion limit is returned literally. *)
-Fixpoint pop (left : nat) (fs : fsys) (stack : list bytes) {struct left} : popres :=
+Fixpoint pop (lits : list N) (left : nat) (fs : fsys) (stack : list bytes) {struct left} : popres :=
   match stack with
   | [] => PopEnd
   | arg :: rest =>
@@ -231,8 +233,8 @@ Fixpoint pop (left : nat) (fs : fsys) (stack : list bytes) {struct left} : popre
               match assoc name fs with
               | None => PopArg arg rest l
               | Some content =>
-                  if has_quote content then PopArg arg rest l
-                  else pop l fs (split_ws content ++ rest)
+                  if has_quote lits content then PopArg arg rest l
+                  else pop lits l fs (split_ws content ++ rest)
               end
           end
       | _ => PopArg arg rest left
@@ -252,7 +254,7 @@ Fixpoint tokenize (fuel : nat) (T : tables) (sel : tblsel) (dd : option bool) (f
   match fuel with
   | O => ([], TFuel)
   | S f =>
-      match pop left fs stack with
+      match pop (t_rsp_literal T) left fs stack with
       | PopEnd => ([], TEnd)
       | PopArg arg rest left1 =>
           let dd' := match dd with
@@ -269,7 +271,7 @@ Fixpoint tokenize (fuel : nat) (T : tables) (sel : tblsel) (dd : option bool) (f
                   let '(l, e) := tokenize f T sel dd' fs left1 rest in (a :: l, e)
               | Some i =>
                   (* get_next_arg is only evaluated when process needs it: the look-ahead is dropped otherwise *)
-                  let nx := pop left1 fs rest in
+                  let nx := pop (t_rsp_literal T) left1 fs rest in
                   let next := match nx with PopArg a _ _ => Some a | PopEnd => None end in
                   match process i arg next with
                   | PEnd => ([], TErrEnd)
@@ -786,3 +788,15 @@ Definition preprocess_command (T : tables) (E : env) (o : ppopts) (p : parsed) :
   ++ l_pre l ++ l_dep l ++ l_common l ++ arch_to_use
   ++ (if p_dd_input p then [dashdash] else [])
   ++ [p_input p].
+
+(* ------------------------------------------------------------------ c.rs generate_hash_key: the argument vector of a key *)
+
+(* what a key function receives as `arguments`, component by component; a filtered component is counted as
+   contributing nothing (the predicate is Rust code), which is all the covering theorem needs *)
+Definition key_words (spec : list keycomp) (p : parsed) (profile_out : option bytes) : list bytes :=
+  flat_map (fun c => match c with
+                     | KList d => get_list d (p_lists p)
+                     | KFiltered _ _ => []
+                     | KProfileOutput => match profile_out with Some o => [o] | None => [] end
+                     | KCwd => []
+                     end) spec.
